@@ -704,3 +704,35 @@ benign('C08', 'per-listener removal over a snapshot of the items',
          "                for et, _subs in list(self._listeners.items()):\n                    self.remove_listener(et, listener)")])
 seeded('C13', 'set_seed overwrites a zero original seed', 'R12.3',
        [('streams', "        self._seed: int = seed\n        self._random.seed(seed)", "        if not self._original_seed:\n            self._original_seed = seed\n        self._seed: int = seed\n        self._random.seed(seed)")], key='original seed 0')
+
+# ===================================================================================================== round 10 additions
+seeded('C15', 'erf_inv forgets the sign of its argument', 'R15.10',
+       [('utils', "    return sign(y) * r\n", "    return r\n")], key='odd')
+benign('C15', 'erf_inv applies the sign with a conditional expression',
+       [('utils', "    return sign(y) * r\n", "    return -r if y < 0 else r\n")])
+seeded('C08', 'delivery by any() stops at the first truthy result', 'R8.1',
+       [('pubsub', "        for listener in self._listeners.get(event.event_type).copy():\n            listener.notify(event)",
+         "        any(listener.notify(event) for listener in self._listeners.get(event.event_type).copy())")], key='short-circuit')
+seeded('C12', 'bound random() kept in a field without __setstate__', 'R12.1',
+       [('streams', "        self._random: Random = Random()\n", "        self._random: Random = Random()\n        self._draw = self._random.random\n"),
+        ('streams', "        return self._random.random()\n", "        return self._draw()\n")], key='escape')
+benign('C12', 'generator created with its seed',
+       [('streams', "        self._random: Random = Random()\n        self.set_seed(seed)\n", "        self._random: Random = Random(seed)\n        self._seed: int = seed\n")])
+seeded('C13', 'isinstance short-cut to a fallback helper', 'R13.9',
+       [('streams', "            self._fallback_stream_updater.update_seed(stream_id, stream,\n                                                      replication_nr)\n",
+         "            if isinstance(self._fallback_stream_updater, SimpleStreamUpdater):\n                self._fallback_stream_updater._formula(stream_id, stream, replication_nr)\n"
+         "            else:\n                self._fallback_stream_updater.update_seed(stream_id, stream, replication_nr)\n"),
+        ('streams', "        stream.set_seed(stream.original_seed() + replication_nr * \n                        (1_000_037 + zlib.crc32(stream_id.encode('utf-8'))))",
+         "        self._formula(stream_id, stream, replication_nr)\n\n    @staticmethod\n    def _formula(stream_id, stream, replication_nr):\n"
+         "        stream.set_seed(stream.original_seed() + replication_nr * \n                        (1_000_037 + zlib.crc32(stream_id.encode('utf-8'))))")], key='devirtualised')
+seeded('C16', 'Quantity.__ge__ written as not <', 'R16.6',
+       [('units', "        if not type(self) == type(other):\n            raise TypeError(f\"comparing incompatible quantities \" \n                    +f\"{type(self).__name__} and {type(other).__name__}\")\n        return float(self) >= float(other)", "        if not type(self) == type(other):\n            raise TypeError(f\"comparing incompatible quantities \" \n                    +f\"{type(self).__name__} and {type(other).__name__}\")\n        return not float(self) < float(other)")], key='__ge__')
+benign('C16', 'Quantity.__lt__ through the float slot wrapper',
+       [('units', "        if not type(self) == type(other):\n            raise TypeError(f\"comparing incompatible quantities \" \n                    +f\"{type(self).__name__} and {type(other).__name__}\")\n        return float(self) < float(other)", "        if not type(self) == type(other):\n            raise TypeError(f\"comparing incompatible quantities \" \n                    +f\"{type(self).__name__} and {type(other).__name__}\")\n        return float.__lt__(self, other)")])
+seeded('C17', 'Quantity.__eq__ with an identity fast path', 'R16.6',
+       [('units', "        if type(self) != type(other):\n            return False\n        return float(self) == float(other)",
+         "        if other is self:\n            return True\n        if type(self) != type(other):\n            return False\n        return float(self) == float(other)")], key='__eq__')
+seeded('C18', 'remove() descends with the first element kept in the key', 'R18.10',
+       [('parameters', "            return self._value[parts[0]].remove(key[key.find('.') + 1:])", "            return self._value[parts[0]].remove(key[key.find('.'):])")], key='remove')
+benign('C18', 'get() descends with the joined rest of the parts',
+       [('parameters', "            return self._value[parts[0]].get(key[key.find('.') + 1:])", "            return self._value[parts[0]].get('.'.join(parts[1:]))")])
